@@ -49,10 +49,10 @@ TECHNIQUE = ("Lean 4 theorem over all contexts x chains x admissible item sequen
 
 # ----------------------------------------------------------------------------------------------- signatures
 
-KINDS = ["req", "str", "int", "none", "btrue", "bfalse", "opt", "optd", "list", "counter"]
-DEFAULT_SRC = {"str": "'dflt'", "int": "3", "none": "None", "btrue": "True", "bfalse": "False", "opt": "None",
+KINDS = ["req", "str", "int", "none", "btrue", "bfalse", "opt", "optd", "list", "counter", "int0"]
+DEFAULT_SRC = {"int0": "0", "str": "'dflt'", "int": "3", "none": "None", "btrue": "True", "bfalse": "False", "opt": "None",
                "optd": "'od'", "list": "None", "counter": "0"}
-DEFAULT_VAL = {"req": None, "str": "dflt", "int": 3, "none": None, "btrue": True, "bfalse": False, "opt": None,
+DEFAULT_VAL = {"int0": 0, "req": None, "str": "dflt", "int": 3, "none": None, "btrue": True, "bfalse": False, "opt": None,
                "optd": "od", "list": [], "counter": 0}
 VOCAB = ["name", "num", "n", "flag", "force", "quiet", "lst", "cnt", "opt", "a_b", "pos1", "pos2", "v", "verbose",
          "my_list", "x", "log", "fmt", "f", "nn"]
@@ -87,17 +87,30 @@ def cli_alias(t, a):
     return ".".join(task_path(t) + [a])
 
 
-def make_task(t, rec):
+def task_function(tasks, i, rec, funcs):
+    """the python function behind task i; a twin (`twin_of`) wraps the VERY SAME function object as its original"""
+    root = i
+    while tasks[root].get("twin_of") is not None:
+        root = tasks[root]["twin_of"]
+    if root not in funcs:
+        t = tasks[root]
+        req = [p for p, k in t["params"] if k == "req"]
+        opt = [(p, k) for p, k in t["params"] if k != "req"]
+        sig = ", ".join(["c"] + req + ["%s=%s" % (p, DEFAULT_SRC[k]) for p, k in opt])
+        body = "_rec.append((%r, {%s}))" % (cli_name(t), ", ".join("%r: %s" % (p, p) for p, _ in t["params"]))
+        fname = "f_" + t["name"].replace("-", "_")
+        ns = {"_rec": rec}
+        exec("def %s(%s):\n    %s\n" % (fname, sig, body), ns)
+        funcs[root] = ns[fname]
+    return funcs[root]
+
+
+def make_task(tasks, i, rec, funcs):
     from invoke import Task
-    req = [p for p, k in t["params"] if k == "req"]
-    opt = [(p, k) for p, k in t["params"] if k != "req"]
-    sig = ", ".join(["c"] + req + ["%s=%s" % (p, DEFAULT_SRC[k]) for p, k in opt])
-    body = "_rec.append((%r, {%s}))" % (cli_name(t), ", ".join("%r: %s" % (p, p) for p, _ in t["params"]))
-    fname = "f_" + t["name"].replace("-", "_")
-    ns = {"_rec": rec}
-    exec("def %s(%s):\n    %s\n" % (fname, sig, body), ns)
+    t = tasks[i]
     late = t.get("alias_via") == "add"      # aliases handed to Collection.add_task instead of to the Task
-    task = Task(ns[fname], name=t["name"], aliases=() if late else tuple(t["aliases"]), auto_shortflags=t["auto_short"],
+    task = Task(task_function(tasks, i, rec, funcs), name=t.get("task_name", t["name"]),
+                aliases=() if late else tuple(t["aliases"]), auto_shortflags=t["auto_short"],
                 iterable=[p for p, k in t["params"] if k == "list"],
                 incrementable=[p for p, k in t["params"] if k == "counter"],
                 optional=[p for p, k in t["params"] if k in ("opt", "optd")])
@@ -177,6 +190,7 @@ def build_collection(tasks, rec, history=None):
     from invoke import Collection
     ops = history if history is not None else assembled_history(tasks)
     colls = {(): Collection()}
+    funcs = {}
     for op in ops:
         if op[0] == "create":
             colls[tuple(op[1])] = Collection(op[1][-1])
@@ -184,11 +198,13 @@ def build_collection(tasks, rec, history=None):
             colls[tuple(op[1][:-1])].add_collection(colls[tuple(op[1])])
         elif op[0] == "task":
             t = tasks[op[1]]
-            task, late_aliases = make_task(t, rec)
+            task, late_aliases = make_task(tasks, op[1], rec, funcs)
+            kw = {}
             if late_aliases is not None:
-                colls[tuple(task_path(t))].add_task(task, aliases=late_aliases)
-            else:
-                colls[tuple(task_path(t))].add_task(task)
+                kw["aliases"] = late_aliases
+            if t.get("task_name", t["name"]) != t["name"]:
+                kw["name"] = t["name"]          # bound under another name than the Task's own
+            colls[tuple(task_path(t))].add_task(task, **kw)
         else:
             inspect_collection(colls[tuple(op[1])], op[2])
     return colls[()]
@@ -260,7 +276,7 @@ def item_tokens(it):
     return [it[1]]
 
 
-PYDEFAULT = {"req": "e", "str": "s" + ".".join(str(ord(ch)) for ch in "dflt"), "int": "i3", "none": "n", "btrue": "b1",
+PYDEFAULT = {"int0": "i0", "req": "e", "str": "s" + ".".join(str(ord(ch)) for ch in "dflt"), "int": "i3", "none": "n", "btrue": "b1",
              "bfalse": "b0", "opt": "n", "optd": "s" + ".".join(str(ord(ch)) for ch in "od"), "list": "n", "counter": "i0"}
 
 
@@ -492,7 +508,7 @@ def param_options(tv, p, rng=None, full=False):
         for v in vals:
             for f in valforms(v):
                 opts.append(([f], v))
-    elif k == "int":
+    elif k in ("int", "int0"):
         vals = ["5", "-5"] if full else [rng.choice(INTVALS)]
         for v in vals:
             for f in valforms(v):
@@ -541,13 +557,18 @@ def param_options(tv, p, rng=None, full=False):
     return opts
 
 
-def merge_blocks(tv, items, rng):
-    """combine some single-character toggles into combined short blocks `-abc`"""
+def merge_blocks(tv, items, rng, first=None):
+    """combine some single-character toggles into combined short blocks `-abc`; `first` = a toggle that should be the
+    FIRST letter of a block whenever a block can be formed"""
     shorts = [i for i, it in enumerate(items) if it[0] == "T" and len(it[1]) == 2 and it[1][1] != "="]
-    if len(shorts) < 2 or rng.random() < 0.35:
+    if len(shorts) < 2 or (first is None and rng.random() < 0.35):
         return items
     k = rng.randint(2, len(shorts))
     chosen = rng.sample(shorts, k)
+    if first is not None:
+        fi = [i for i in shorts if items[i] == first]
+        chosen = [i for i in chosen if i not in fi[:1]]
+        chosen = fi[:1] + (chosen or [i for i in shorts if i != fi[0]][:1])
     block = ("B", "".join(items[i][1][1] for i in chosen), [items[i][2] for i in chosen])
     rest = [it for i, it in enumerate(items) if i not in chosen]
     return rest + [block]
@@ -604,7 +625,7 @@ def intended_of(tv, seq):
             k = tv.kind[p]
             if k == "list":
                 want[p] = want[p] + [v]
-            elif k == "int":
+            elif k in ("int", "int0"):
                 want[p] = int(v)
             else:
                 want[p] = v
@@ -644,12 +665,43 @@ def arrange(tv, items, rng):
     return seq
 
 
+EQVALS = ["a=b", "k=v=w", "x=", "a=b=", "1=2", "été=ü"]
+
+
+def shared_items(tv, rng):
+    """for the shared-letter parameter: the spelling forms on which a confusion of the tasks' flag tables would show —
+    the letter as FIRST letter of a combined short token (`-fq`, `-vv`) where it takes no value, a glued value
+    containing `=` (`-fa=b`) where it takes one.  Returns (items, block-first item or None) or None."""
+    p = tv.t.get("shared")
+    if p is None or p not in tv.kind:
+        return None
+    fl = ([f for f in tv.flags(p) if len(f) == 2] or [None])[0]
+    if fl is None:
+        return None
+    k = tv.kind[p]
+    if k in ("bfalse", "counter"):
+        n = rng.randint(2, 3) if k == "counter" else 1
+        return [("T", fl, p)] * n, ("T", fl, p)
+    v = rng.choice(EQVALS)
+    if not value_ok(tv, v, "glued", False):
+        return None
+    vs = [v] if k != "list" else [v, rng.choice(EQVALS)]
+    vs = [x for x in vs if value_ok(tv, x, "glued", False)]
+    return [("G", fl, x, p) for x in vs], None
+
+
 def spell_call(tv, name_token, rng, last_call):
     items = []
+    first = None
+    boosted = shared_items(tv, rng) if rng.random() < 0.8 else None
     # which of the required parameters are given by flag: ANY subset, chosen as a whole (uniform over the subsets, so
     # runs of consecutive by-flag positionals at the start, in the middle and at the end are all frequent)
     by_flag = dict((p, rng.random() < 0.5) for p in tv.positional)
     for p in tv.params:
+        if boosted is not None and p == tv.t.get("shared"):
+            items += boosted[0]
+            first = boosted[1]
+            continue
         opts = param_options(tv, p, rng)
         if tv.kind[p] != "req" and rng.random() < 0.35:
             continue
@@ -661,7 +713,7 @@ def spell_call(tv, name_token, rng, last_call):
             pool = opts
         its, _ = rng.choice(pool)
         items += its
-    items = merge_blocks(tv, items, rng)
+    items = merge_blocks(tv, items, rng, first)
     seq = None
     for _ in range(8):
         cand = arrange(tv, items, rng)
@@ -733,6 +785,60 @@ def random_tasks(rng):
                       "auto_short": rng.random() < 0.8, "params": params,
                       "path": rng.choice([[], [], [], [], [], ["ns"], ["ns"], ["ns", "deep"], ["docs"], ["ns", "deep", "er"]]),
                       "alias_via": rng.choice(["task", "task", "add"])})
+    fam = rng.random()
+    if fam < 0.22 and len(tasks) >= 2:
+        share_letter(tasks, rng)
+    elif fam < 0.40:
+        add_twin(tasks, rng)
+    return tasks
+
+
+LETTER_NAMES = {"f": ["f", "force", "fmt", "flag"], "v": ["v", "verbose"], "q": ["q", "quiet"], "n": ["n", "name", "num", "nn"],
+                "x": ["x"], "l": ["l", "lst", "log"]}
+
+
+def share_letter(tasks, rng):
+    """FAMILY shared short letters: every task gets a parameter whose short flag is the same letter, of DIFFERENT kinds
+    (not value-taking in some tasks, value-taking in others) — each task's tokens must be read with its own flags"""
+    letter = rng.choice(sorted(LETTER_NAMES))
+    toggles, values = ["bfalse", "counter"], ["str", "none", "list", "str", "req"]
+    flip = rng.random() < 0.5
+    for i, t in enumerate(tasks):
+        kind = rng.choice(toggles if (i % 2 == 0) != flip else values)
+        name = rng.choice(LETTER_NAMES[letter])
+        others = [pk for pk in t["params"] if not pk[0].startswith(letter)][:3]
+        if kind == "req":
+            others = [pk for pk in others if pk[1] != "req"]
+        t["params"] = [[name, kind]] + others       # first, so that the auto short flag is its first letter
+        t["auto_short"] = True
+        t["shared"] = name
+    return tasks
+
+
+TWIN_KINDS = {"none": ["none", "opt", "list"], "opt": ["none", "opt", "list"], "list": ["none", "opt", "list"],
+              "int0": ["int0", "counter"], "counter": ["int0", "counter"]}
+
+
+def add_twin(tasks, rng):
+    """FAMILY twin tasks: a second, DISTINCT Task object around the very same function and with the same Task name, but
+    with other parser hints (optional / iterable / incrementable / auto_shortflags), published under another CLI name
+    (another sub-collection, or another binding name) — each must be parsed according to its own hints"""
+    i = rng.randrange(len(tasks))
+    t = tasks[i]
+    t["params"] = [pk for pk in t["params"] if pk[1] not in TWIN_KINDS][:3]
+    for nm, k in zip(rng.sample(["tag", "only", "level", "mode"], rng.randint(1, 3)), [rng.choice(sorted(TWIN_KINDS)) for _ in range(3)]):
+        if nm not in [p for p, _ in t["params"]]:
+            t["params"].append([nm, k])
+    twin = {"name": t["name"], "task_name": t["name"], "twin_of": i, "aliases": [], "alias_via": "task",
+            "auto_short": t["auto_short"] if rng.random() < 0.6 else not t["auto_short"],
+            "params": [[p, rng.choice([x for x in TWIN_KINDS[k] if x != k]) if k in TWIN_KINDS and rng.random() < 0.85 else k]
+                       for p, k in t["params"]]}
+    if rng.random() < 0.5:
+        twin["path"] = rng.choice([p for p in ([], ["ns"], ["ops"], ["ns", "deep"]) if p != task_path(t)])
+    else:
+        twin["path"] = task_path(t)
+        twin["name"] = t["name"] + "2"              # add_task(task, name=...)
+    tasks.append(twin)
     return tasks
 
 
@@ -818,6 +924,42 @@ def damage(rng, argv, world):
     return argv
 
 
+def family_hist(out, tasks, chain, w):
+    by = dict((cli_name(t), t) for t in tasks)
+    if any(t.get("shared") for t in tasks):
+        out.hist["family:shared-letter worlds"] += 1
+        seen_toggle_block = seen_value = False
+        for c in chain:
+            t = by[c["primary"]]
+            p = t.get("shared")
+            if p is None:
+                continue
+            tv = w.views[c["primary"]]
+            for it in c["items"]:
+                if it[0] == "B" and it[2][0] == p:
+                    if seen_value:
+                        out.hist["shared-letter: value-task THEN block-first-letter task"] += 1
+                    seen_toggle_block = True
+                if it[0] == "G" and it[3] == p and "=" in it[2]:
+                    if seen_toggle_block:
+                        out.hist["shared-letter: block-first-letter task THEN glued '='-value task"] += 1
+                    seen_value = True
+    if any(t.get("twin_of") is not None for t in tasks):
+        out.hist["family:twin-task worlds"] += 1
+        called = set(c["primary"] for c in chain)
+        for t in tasks:
+            if t.get("twin_of") is not None:
+                o = tasks[t["twin_of"]]
+                both = cli_name(t) in called and cli_name(o) in called
+                out.hist["twins: both called in one line" if both else "twins: one of them called"] += 1
+                diff = [(a[1], b[1]) for a, b in zip(o["params"], t["params"]) if a[1] != b[1]]
+                for d in diff:
+                    out.hist["twins: hint %s vs %s" % tuple(sorted(d))] += 1
+                if o["auto_short"] != t["auto_short"]:
+                    out.hist["twins: auto_shortflags differs"] += 1
+                out.hist["twins: %s" % ("other binding name" if task_path(t) == task_path(o) else "other sub-collection")] += 1
+
+
 def kind_is_int(v):
     return v.lstrip("+-").isdigit()
 
@@ -885,11 +1027,21 @@ def run(ctx):
                 callnames = [rng.choice(heavy), rng.choice(names)] + callnames[:1]
             if len(callnames) > 1 and rng.random() < 0.4:
                 callnames[1] = callnames[0]
+            shared = [cli_name(t) for t in tasks if t.get("shared")]
+            twins = [(cli_name(tasks[t["twin_of"]]), cli_name(t)) for t in tasks if t.get("twin_of") is not None]
+            if len(shared) >= 2 and rng.random() < 0.85:
+                a, b = rng.sample(shared, 2)        # two DIFFERENT tasks sharing the letter, in either order
+                callnames = [a, b] + callnames[:rng.randint(0, 1)]
+            elif twins and rng.random() < 0.85:
+                pair = list(rng.choice(twins))
+                rng.shuffle(pair)
+                callnames = (pair if rng.random() < 0.6 else pair[:1]) + callnames[:rng.randint(0, 1)]
             chain = []
             for ci, cn in enumerate(callnames):
                 chain.append(spell_call(w.views[cn], rng.choice(w.tokens[cn]), rng, ci == len(callnames) - 1))
-            case = {"tasks": tasks, "initial": ik, "chain": chain, "argv": argv_of(chain), "program": rng.random() < 0.12,
-                    "history": history}
+            # twins share one recording body, so the end-to-end run could not tell them apart: parser-level only
+            case = {"tasks": tasks, "initial": ik, "chain": chain, "argv": argv_of(chain),
+                    "program": rng.random() < 0.12 and not twins, "history": history}
             batch.append((w, case))
             if rng.random() < 0.2:
                 dcase = {"tasks": tasks, "initial": ik, "chain": None, "argv": damage(rng, case["argv"], w), "program": False,
@@ -914,6 +1066,7 @@ def run(ctx):
                         out.hist["positionals>=3:flag-%s-bare" % wh] += 1
                     if "11" in mask and "0" in mask[mask.index("11"):]:
                         out.hist["positionals>=3:consecutive-by-flag-then-bare"] += 1
+            family_hist(out, case["tasks"], chain, w)
             form_hist(out, chain, w.all_names)
             out.hist["chain_len_%d" % len(chain)] += 1
             if len(chain) > 1 and len(set(c["primary"] for c in chain)) < len(chain):
